@@ -8,6 +8,7 @@ import AsmjitVerif.Lemmas.C18Hash
 import AsmjitVerif.Lemmas.C18Bits
 import AsmjitVerif.Lemmas.C18Str2
 import AsmjitVerif.Lemmas.C18Arena2
+import AsmjitVerif.Lemmas.C18Vector
 namespace AsmjitVerif.C18
 open AsmjitVerif
 
@@ -222,5 +223,40 @@ theorem arena_hard_reset_is_init (minBlock staticSize mallocMax : Nat) (ops : Li
 example : (run [.one 1000, .get 1 100, .get 2 5000, .put 1, .get 3 128] (init 1024 0, [])).2.length = 3 := by decide
 example : safe (init 1024 0) [(0, .managed 0 0, 8)] = false := by decide
 end ArenaS
+
+/-! ## ArenaVector (PARTIAL).
+Full statement wanted (`vec_refines_list`): for every operation sequence (append/prepend/insert/remove_at/pop/clear/truncate/
+reserve_*/resize_*/concat/release) interleaved with arbitrary other arena traffic, the model never writes outside its
+allocation, keeps `size ≤ capacity = buf.length`, answers `kOutOfMemory` without changing the vector, and `items` equals the
+textbook list.  Proved below: the growth policy, the allocator facts the capacity computation rests on, and the refinement of
+the operations that do not allocate.  NOT proved: `reserveWithByteSize` and what depends on it (`reserve_*`, `resize_*`,
+`insert/append/prepend`, `concat`, `release`) and the sequence theorem — these are covered by correspondence + monitor only. -/
+section Vec
+open AsmjitVerif.Vector AsmjitVerif.Arena
+
+/-- `expand_ge`: the growth policy never shrinks a request (all `b`, also above `kGrowThreshold`) … -/
+theorem vec_expand_ge (b : Nat) : b ≤ expandByteSize b := expand_ge' b
+/-- … and never adds more than `kGrowThreshold` (no 64-bit wrap) -/
+theorem vec_expand_le (b : Nat) : expandByteSize b ≤ b + kGrowThreshold := expand_le b
+
+/-- what `alloc_reusable` hands a container is at least the requested size (slot class or exact dynamic block), and below
+4 GiB when no 4 GiB allocation can succeed – so `uint32_t(allocated / item_size)` does not truncate -/
+theorem vec_alloc_ge {a a' : State} {size allocated : Nat} {p : Loc}
+    (h : allocReusable a size = (a', some p, allocated)) (h0 : 0 < size) (h1 : size ≤ u64) :
+    size ≤ allocated ∧ allocated ≤ max 2048 size ∧ (a.mallocMax < u32 → allocated < u32) :=
+  allocReusable_spec h h0 h1
+
+theorem vec_remove_at_partial {v : Vec} (h : WF v) {i : Nat} (hi : i < v.size) :
+    ∃ v', removeAt v i = some v' ∧ WF v' ∧ items v' = (items v).eraseIdx i := removeAt_spec h hi
+theorem vec_pop_partial {v : Vec} (h : WF v) (h0 : 0 < v.size) :
+    WF (pop v).1 ∧ items (pop v).1 = (items v).dropLast ∧ some (pop v).2 = (items v).getLast? := pop_spec h h0
+theorem vec_truncate_partial {v : Vec} (h : WF v) (n : Nat) :
+    WF (truncate v n) ∧ items (truncate v n) = (items v).take n := truncate_spec h n
+theorem vec_index_of_partial {v : Vec} (h : WF v) (x : Nat) : indexOf v x = (items v).findIdx? (· == x) := indexOf_spec h x
+theorem vec_contains_partial (v : Vec) (x : Nat) : contains v x = true ↔ x ∈ items v := contains_spec v x
+
+example : expandByteSize 100 = 256 := by decide
+example : (removeAt { data := none, buf := [1, 2, 3, 0], size := 3, cap := 4 } 1).map items = some [1, 3] := by decide
+end Vec
 
 end AsmjitVerif.C18
